@@ -64,6 +64,9 @@ func (s *State) clone() *State {
 	return n
 }
 
+// InputTerm: a labelled SMT term of the function's entry state (parameter, field of a pointed-to struct, ...).
+type InputTerm struct{ Label, S string }
+
 type Obl struct {
 	Name    string
 	Kind    string
@@ -80,6 +83,7 @@ type Obl struct {
 	Time    float64
 	Model   string
 	Note    string
+	Candidate bool // Model is a candidate input found without the quantified prelude axioms (replay decides)
 	Src     string
 	raw     string
 	ctx     *FnCtx
@@ -100,6 +104,7 @@ type FnCtx struct {
 	regSort map[string]string
 	declared map[string]bool
 	tfGuard  string // guard under which typeFacts assumes (empty: unconditional)
+	inputTerms []InputTerm // entry-state terms whose model values make up a concrete input (for replay)
 	entry *State
 	letVals map[string]Term
 	retNames []string
